@@ -754,6 +754,66 @@ func runCrash(seed uint64, n, shards int, out, tmp string, thorough bool, p h.Ge
 			}
 		}
 	}
+	// one accepted call of every modifying operation on an image that holds a primary and a plain
+	// system partition, an OCI blob and a generic object (SetPrimPart moving the primary is rare
+	// in random histories)
+	for v := 0; v < 2; v++ {
+		r := root.Fork()
+		var b sif.Buffer
+		mkt := func(t sif.DataType, content string, opts ...sif.DescriptorInputOpt) sif.DescriptorInput {
+			di, err := sif.NewDescriptorInput(t, strings.NewReader(content), opts...)
+			if err != nil {
+				panic(err)
+			}
+			return di
+		}
+		dis := []sif.DescriptorInput{
+			mkt(sif.DataPartition, string(h.GenContent(r, 40)), sif.OptPartitionMetadata(sif.FsSquash, sif.PartPrimSys, "amd64"), sif.OptObjectAlignment(64)),
+			mkt(sif.DataPartition, string(h.GenContent(r, 50)), sif.OptPartitionMetadata(sif.FsExt3, sif.PartSystem, "arm64"), sif.OptObjectAlignment(8)),
+			mkt(sif.DataOCIBlob, string(h.GenContent(r, 30))),
+			mkt(sif.DataGeneric, string(h.GenContent(r, 20+r.Intn(100)))),
+		}
+		if v == 1 {
+			dis = dis[1:] // no primary partition yet
+		}
+		if _, err := sif.CreateContainer(&b, sif.OptCreateDeterministic(), sif.OptCreateWithDescriptorCapacity(7),
+			sif.OptCreateWithDescriptors(dis...), sif.OptCreateWithCloseOnUnload(false)); err != nil {
+			panic(err)
+		}
+		pre := append([]byte(nil), b.Bytes()...)
+		sysID, ociID, genID := uint32(2), uint32(3), uint32(4)
+		if v == 1 {
+			sysID, ociID, genID = 1, 2, 3
+		}
+		det := h.TOpt{Kind: h.TDeterministic}
+		ops := []h.Op{
+			{Kind: h.OpSetPrim, ID: sysID, T: det},
+			{Kind: h.OpSetPrim, ID: sysID, T: h.TOpt{Kind: h.TExplicit, T: 1700000001}},
+			{Kind: h.OpSetMeta, ID: genID, Md: h.Meta{Kind: h.MdRaw, Raw: h.GenContent(r, 12)}, T: det},
+			{Kind: h.OpSetOCI, ID: ociID, Alg: "sha256", Hex: h.Sha256Hex(h.GenContent(r, 8)), T: det},
+			{Kind: h.OpAdd, DI: h.DInput{Type: h.DataGeneric, Content: h.GenContent(r, 33), FailAfter: -1, AlignSet: true, Align: 512}, T: det},
+			{Kind: h.OpDelete, ByID: true, Sel: h.Selector{Kind: h.SID, N: int64(sysID)}, ZeroSet: true, Zero: true, T: det},
+		}
+		for _, op := range ops {
+			id++
+			calls, res, fs := h.OracleCrash(id, pre, op, thorough, &st)
+			s.Oracle = append(s.Oracle, fs...)
+			s.OracleRuns["crash-pairs"]++
+			s.OracleRuns["crafted-accepted-calls"]++
+			if res != "Ok" {
+				s.Oracle = append(s.Oracle, h.Finding{Property: "C09", Case: id, What: "crafted " + op.KindName() + " was expected to be accepted, result " + res})
+			}
+			if calls != nil {
+				mc := h.Case{ID: id, Backend: "buf", LoadBytes: pre, Steps: []h.Step{{Op: op, Trace: calls}}}
+				if _, err := h.RunCase(&mc, tmp); err != nil {
+					fmt.Fprintln(os.Stderr, "harness error:", err)
+					os.Exit(3)
+				}
+				tally(&s, &mc, distinct)
+				cases = append(cases, mc)
+			}
+		}
+	}
 	s.Extra["crash_points_between_calls"] = st.Boundaries
 	s.Extra["torn_write_points"] = st.Torn
 	s.Extra["injected_failures"] = st.Faults
